@@ -675,3 +675,64 @@ Proof.
     rewrite Forall_forall in Hall. apply Hall. done.
   - intros p ps k c Hp. rewrite lookup_empty in Hp. discriminate.
 Qed.
+
+(* ---- statements in terms of what a pledging node has been handed ---- *)
+Lemma result_of_lookup s p k c :
+  result_of s p = Some (k, c) -> exists ps, s_pl s !! p = Some ps /\ p_result ps = Some (k, c).
+Proof.
+  unfold result_of, pl_of. destruct (s_pl s !! p) as [ps|]; simpl; [eauto|discriminate].
+Qed.
+
+(* the event "pledge.Pledge of p returned (key, ck)" is accepted only when p has been
+   handed exactly that by a run of its own *)
+Lemma pend_accepts pmax s p key ck s' :
+  step pmax s (EPEnd p true key ck) = Some s' -> result_of s p = Some (key, ck).
+Proof.
+  unfold result_of. simpl. destruct (p_done (pl_of s p)); [discriminate|].
+  destruct (p_result (pl_of s p)) as [[k c]|]; [|discriminate]. simpl.
+  destruct (bool_decide (key = k)) eqn:E1; [|discriminate].
+  destruct (bool_decide (ck = c)) eqn:E2; [|discriminate].
+  apply bool_decide_eq_true in E1. apply bool_decide_eq_true in E2. subst. done.
+Qed.
+
+(* the full clause: whoever is handed a key was handed it by a run of its own that
+   gathered the approval of a full majority quorum for exactly that key, and the cluster
+   key handed over is the coordinator's *)
+Lemma joiner_key_needs_full_quorum s p k c :
+  Inv s -> result_of s p = Some (k, c) ->
+  exists r rn js,
+    s_runs s !! r = Some rn /\ r_pledge rn = p /\ r_prop rn = k /\
+    s_jur s !! r_member rn = Some js /\ j_ck js = c /\
+    NoDup (quorum_of rn) /\ length (quorum_of rn) = qsize (r_snap rn) /\
+    (forall j, j ∈ quorum_of rn ->
+        j ∈ map vaddr (healthy (r_snap rn)) /\ granted_to s j r k).
+Proof.
+  intros HI Hres. destruct (result_of_lookup _ _ _ _ Hres) as (ps & Hp & Hr).
+  destruct (pledge_result_from_admitted_run s p ps k c HI Hp Hr) as (r & rn & js & H1 & H2 & H3 & H4 & H5 & H6).
+  destruct (admit_needs_full_quorum s r rn HI H1 H3) as (Q1 & Q2 & Q3).
+  exists r, rn, js. subst k. repeat split; auto; apply Q3; auto.
+Qed.
+
+Lemma joiner_keys_unique_partial s p1 p2 k1 c1 k2 c2 :
+  Inv s -> p1 <> p2 ->
+  result_of s p1 = Some (k1, c1) -> result_of s p2 = Some (k2, c2) ->
+  (forall r1 r2 rn1 rn2, s_runs s !! r1 = Some rn1 -> s_runs s !! r2 = Some rn2 ->
+     admitted_run rn1 = true -> admitted_run rn2 = true -> r_pledge rn1 = p1 -> r_pledge rn2 = p2 ->
+     compat (r_snap rn1) (r_snap rn2)) ->
+  k1 <> k2.
+Proof.
+  intros HI Hne R1 R2 Hc.
+  destruct (result_of_lookup _ _ _ _ R1) as (ps1 & P1 & Q1).
+  destruct (result_of_lookup _ _ _ _ R2) as (ps2 & P2 & Q2).
+  eapply (pledge_keys_unique_partial s p1 p2); eauto.
+Qed.
+
+Lemma cluster_key_uniform pmax ck0 ms s :
+  Forall (fun m : member_cfg => m.1.1.2 = ck0) ms -> reachable pmax ms s ->
+  (forall j js, s_jur s !! j = Some js -> j_ck js = ck0) /\
+  (forall p k c, result_of s p = Some (k, c) -> c = ck0).
+Proof.
+  intros Hall (tr & He).
+  destruct (exec_ck pmax ck0 tr (init ms) s (Inv_init ms) (ck_inv_init ck0 ms Hall) He) as [C1 C2].
+  split; [exact C1|]. intros p k c Hr. destruct (result_of_lookup _ _ _ _ Hr) as (ps & Hp & Hq). eauto.
+Qed.
